@@ -27,19 +27,19 @@ CHECKS = {
     "C10": {
         "technique": "runtime monitoring: the real parser's tree for every enumerated operator chain compared with an independent precedence climber; differing shapes adjudicated by running chain and standard parenthesisation in the real interpreter on assignment vectors; literal nodes compared with the rule table",
         "text": "Bounded-exhaustive: every chain with at most 3 (quick) / 4 (thorough) binary and unary operators over distinct variables, each also with parentheses around every contiguous sub-chain, plus random chains up to 6 binary operators; decimal/&H/&O literals (all 65536 16-bit values in the thorough tier, sampled 32-bit values, boundaries, leading zeros, lower case, after unary minus) and fractional literals with and without #.",
-        "note": "Shape comparison uses the public Expression enum; value adjudication compares the implementation with itself, so it cannot see a grouping error that is value-equivalent on all 32 vectors; the property's own precedence table is the reference.",
+        "note": "Shape comparison uses the public Expression enum; value adjudication compares the implementation with itself, so it cannot see a grouping error that is value-equivalent on all 32 vectors; the property's own precedence table is the reference. Fractional and # literals at the whole-number type boundaries are checked plain and after a unary minus; one known finding (KF-C10-1: -2147483648.0# becomes a LONG) is pinned.",
         "design": "DESIGN.md section 2 C10",
     },
     "C15": {
-        "technique": "runtime monitoring: structural invariant walk over the generated instruction list at the quiescent point before execution, plus an online trace checker on per-instruction hook events (no pop on an empty stack, stack depth is a function of the statement address per activation, depths at procedure return equal those at entry, executed branches stay in their procedure)",
-        "text": "Every accepted program embedded in the repository and 2e4 (quick) / 5e5 (thorough) generated programs are compiled and run under the monitors. The static all-paths claim of the property is outside runtime monitoring: what is decided is every path the workload executes; the evidence reports how many conditional branches were observed both taken and not taken, the opcode histogram and the number of distinct (address, depth-vector) states.",
-        "note": "The return clause compares the value/register depths right after a procedure returned with those at the call (the VM drops a call's loop frames with the call); the other stacks must balance at the return itself. GOSUB depth is legitimately variable and excluded from the depth vector; statements inside an ON ERROR GOTO handler are exempt from the depth-function clause; unexecuted paths are not judged; one known finding (KF-C15-1, pinned to its program).",
+        "technique": "runtime monitoring: structural invariant walk and abstract interpretation of the stack depths (all paths, effect table calibrated against the real VM at run time) over the generated instruction list at the quiescent point before execution, plus an online trace checker on per-instruction hook events (no pop on an empty stack, stack depth is a function of the statement address per activation, depths at procedure return equal those at entry, executed branches stay in their procedure)",
+        "text": "Every accepted program embedded in the repository and 2e4 (quick) / 5e5 (thorough) generated programs are compiled and run under the monitors. Every instruction list the real generator returns is also walked by an abstract interpreter over all its control-flow paths (procedure, GOSUB and handler roots; joins must agree on the depth vector, procedures must end at their entry depths, carried FOR/SELECT depths must match); error edges are followed only dynamically; the evidence reports how many conditional branches were observed both taken and not taken, the opcode histogram and the number of distinct (address, depth-vector) states.",
+        "note": "The return clause compares the value/register depths right after a procedure returned with those at the call (the VM drops a call's loop frames with the call); the other stacks must balance at the return itself. GOSUB depth is legitimately variable and excluded from the depth vector; statements inside an ON ERROR GOTO handler are exempt from the depth-function clause; the stack effect assumed per opcode by the abstract walk is checked against the real VM on every executed straight-line instruction (a mismatch is reported); a directed family drives failing block headers (FOR bounds and steps, WHILE / DO / IF / ELSEIF / SELECT / CASE expressions) under ON ERROR RESUME NEXT and RESUME NEXT; two known findings (KF-C15-1, KF-C15-2) are pinned.",
         "design": "DESIGN.md section 2 C15",
     },
     "C17": {
         "technique": "runtime monitoring: real interpreter run on bounded-exhaustive and random string-function calls, outputs judged online by an executable reference model (Python string operations)",
-        "text": "Every enumerated instance of the defining equations is executed by the real pipeline (parse, lint, generate, VM) and compared with the model; exhaustive over the alphabet {a,B,space} up to length 3 (quick) / 5 (thorough) with counts -1..7, all 65536 INTEGER values for VAL(STR$(k)) in the thorough tier, plus random printable-ASCII strings. Held means: held on the executions listed in the evidence.",
-        "note": "Trusts Python's ASCII string operations as the model, the PRINT path for strings without CR/LF (C16) and the harness worker; non-ASCII strings (CHR$ > 127) are not generated.",
+        "text": "Every enumerated instance of the defining equations is executed by the real pipeline (parse, lint, generate, VM) and compared with the model; exhaustive over the alphabet {a,B,space} up to length 3 (quick) / 5 (thorough) with counts -1..7, all 65536 INTEGER values for VAL(STR$(k)) in the thorough tier, plus random printable-ASCII strings and strings with characters above 127 (positions and counts in characters). Held means: held on the executions listed in the evidence.",
+        "note": "Trusts Python's ASCII string operations as the model, the PRINT path for strings without CR/LF (C16) and the harness worker; UCASE$ / LCASE$ are not judged on characters above 127.",
         "design": "DESIGN.md section 2 C17",
     },
 }
@@ -59,7 +59,7 @@ CHECKS["C05"] = {
 CHECKS["C06"] = {
     "technique": "runtime monitoring: slot-invariant hook that walks every live memory block at every statement boundary (variant tag vs declared type, value range), plus reference prediction of stored value or Overflow for every generated statement; repeated on the plain release build",
     "text": "Exhaustive over the boundary set of each numeric type x each target type x every route into a variable (assignment, by-value and by-ref parameter, SHARED variable in a SUB, FOR initial value/limit/increment, READ, INPUT from console and file, function result, array element, record field, CONST with suffix) and every arithmetic operator on all boundary pairs; random in-range values. The monitor observed every scalar slot (variables, array elements, record fields, parameters, counters) at every statement boundary of every run.",
-    "note": "Also: exact quotients close to whole numbers, literals of 39-400 digits (must never be stored). Rounding ties and values not exactly representable in their type are discarded; the numeric workload is also run on the plain release profile (overflow checks off) because the verdict can flip between profiles.",
+    "note": "Also: exact quotients close to whole numbers, literals of 39-400 digits (must never be stored), literals at the edges of the whole-number types stored directly (negated &H / &O words, double negations, the minima) through seven routes. Rounding ties and values not exactly representable in their type are discarded; the numeric workload is also run on the plain release profile (overflow checks off) because the verdict can flip between profiles.",
     "design": "DESIGN.md section 2 C06",
 }
 CHECKS["C09"] = {
@@ -77,7 +77,7 @@ CHECKS["C02"] = {
 CHECKS["C14"] = {
     "technique": "runtime monitoring, metamorphic between the implementation's two evaluators: CONST form vs inlined expression run by the real code, compared on output, outcome and the run-time variant tag observed at the print hook; rejection verdicts compared with the run-time outcome of the expression",
     "text": "3e4 (quick) / 5e5 (thorough) constant expressions over literals at the type boundaries, zero divisors and earlier constants, all operators, depth <= 4, declared globally, used inside a SUB or declared inside a SUB, bare and with every suffix. Accepted: same stdout, outcome and run-time type as the inlined parenthesised expression (converted through a variable of the suffix type). Rejected with Overflow / DivisionByZero: the expression must raise exactly that error at run time.",
-    "note": "A rejection with another error is a violation when the same expression evaluates normally at run time (that is how the folder's INTEGER-only AND/OR was found and repaired); when the run-time evaluation fails too it is counted and listed, not judged.",
+    "note": "A rejection with another error is a violation when the same expression evaluates normally at run time (that is how the folder's INTEGER-only AND/OR was found and repaired); when the run-time evaluation fails too it is counted and listed, not judged. SUBs whose parameter has the name of a global constant are generated: a CONST expression that uses the name there must be rejected (Invalid constant) or agree with the inlined form.",
     "design": "DESIGN.md section 2 C14",
 }
 CHECKS["C16"] = {
@@ -89,7 +89,7 @@ CHECKS["C16"] = {
 CHECKS["C12"] = {
     "technique": "runtime monitoring: (a) run-time monitor for Type mismatch (13) and wrong-kind assertions on accepted programs, (b) metamorphic renaming of user identifiers, (c) enumerated single ill-typing edits with a known expected error family and location, all against the real checker and VM",
     "text": "(a) accepted programs of the whole-repertoire workload run under the monitor; (b) each program (accepted or rejected) consistently renamed, verdict must not change; (c) typed generator programs with a string literal put, one at a time, into every expression position that requires a number (operands, parentheses, call arguments, array subscripts, CASE expressions, FOR bounds, conditions, assignment sources), plus missing label, duplicate definition, NEXT for the wrong counter, wrong argument count and by-reference type edits: each must be rejected with an error of the matching family at the row of the edited statement.",
-    "note": "Also: the right and the wrong type at every argument position of 17 built-in calls; (d) the same program with its SUB/FUNCTION texts before and after the module-level code must get the same verdict, and a GOTO from a procedure to a label of the module must be rejected in both layouts. Error families are coarse sets fixed in the oracle table; positions are checked by row.",
+    "note": "Also: the right and the wrong type at every argument position of 17 built-in calls; (d) the same program with its SUB/FUNCTION texts before and after the module-level code must get the same verdict, and a GOTO from a procedure to a label of the module must be rejected in both layouts. (e) one ill-formed statement (GOTO / GOSUB / RETURN / ON ERROR GOTO / RESUME to a missing label, a SUB or FUNCTION call with the wrong argument count in several expression positions, a by-reference argument of the wrong type, a second DIM / CONST / label of the same name, NEXT for the wrong counter) put after a simple statement chosen anywhere in the program - any block nesting, main module and procedure bodies - must be rejected with the matching family at the row of the new statement. Error families are coarse sets fixed in the oracle table; positions are checked by row.",
     "design": "DESIGN.md section 2 C12",
 }
 CHECKS["C19"] = {
@@ -112,7 +112,7 @@ ALL = ["C%02d" % i for i in range(1, 21)]
 CHECKS["C04"] = {
     "technique": "runtime monitoring: shadow-model monitor - every write the generated program makes is mirrored into a model keyed by (variable, index tuple, field path); printed read-backs and the hook's end-of-run dump of every element and field of every array and record are compared with the model",
     "text": "Straight-line programs over arrays of 1-3 dimensions with assorted lower bounds (element types: the five built-ins, STRING * n, records with a nested record and fixed strings), record and fixed-string variables; bounded-exhaustive over every shape with at most 24 (quick) / 60 (thorough) elements: write a unique value to every element, read all back, then access EVERY tuple of the one-step-extended index box that lies outside the bounds (reads and writes, counted by an ON ERROR handler) and compare the complete dump; random mixes with subscripts given as INTEGER, LONG and SINGLE expressions, REDIM histories (explicit and bare), fixed strings assigned directly, through a by-reference parameter and by record copy.",
-    "note": "Array parameters, REDIM inside procedures and ERASE are not generated; rounding ties are discarded.",
+    "note": "String values include characters above 127 (a STRING * n slot holds n characters, not n bytes). Array parameters, REDIM inside procedures and ERASE are not generated; rounding ties are discarded; a NUL character ends a fixed-length string (pinned by a repository test, not judged).",
     "design": "DESIGN.md section 2 C04",
 }
 CHECKS["C18"] = {
